@@ -65,6 +65,27 @@ the single-pair helper agrees with the full computation                      orc
                                                                              = spec; V_aa+V_bb-2V_ab = full computation)
 (list of datasets: every option is forwarded to each element; DESIGN C15)    orc_list
 
+Dimension sweeps (tools/SWEEP_BRIEF.md; case keys added to the oracles above, new input classes; all generated OUTSIDE the
+classes of the known findings so that a failure is reported under the new class)
+  typed data            orc_layout / orc_agree: non-integer float32 data ('float32-non-integer'), 15-bit integers as int16 /
+                        uint16 / int32 / int64 / float32 ('int-15-bit', 'data-<dtype>-<order>'), the full uint16 range
+                        ('uint16-full-range'), precision as strided view
+  units                 orc_pairs / orc_agree with case['scale'] in 1e-26 .. 1e+12 (poisson 1e-3, 1e+6), precision fixed or in
+                        the matching units; compared RELATIVE to the largest expected entry ('units-<scale>')
+  containers / labels   orc_pairs: condition and fold descriptors as list / tuple / object / int8 / uint8 / float32 / bool
+                        arrays; float labels (also 1e-20 and 1 ulp apart), numeric strings ('labels-<set>-as-<form>');
+                        orc_folds: 12 further fold label sets ('folds-typed'); orc_list: tuple of datasets, tuple / 3-D array
+                        of precisions; further descriptors (2-D, str list, varying) and the condition descriptor last in the
+                        dict: result unchanged, carried descriptors aligned with the conditions ('extra-descriptors*')
+  sizes                 orc_pairs: up to 30 (64) conditions, 70 (130) observations, 200 channels, one channel, 2 observations
+                        ('size-n<n>-m<m>-P<P>')
+  call sequences        orc_calls: A, B, A, single-pair helper twice, list call: results = definition, repeatable, held
+                        results and inputs unchanged, no descriptor added ('calls-*')
+  environment           orc_hashseed: batches of the oracles in new interpreters with other PYTHONHASHSEEDs
+Pending triage (registered behind `if False`): 'noise-dtype-float32' / 'noise-dtype-int64' (precision matrix of another dtype
+raises in the compiled kernel), 'cv-fallback-adds-index-descriptor' (crossnobis / poisson_cv without cv_descriptor add an
+'index' descriptor to the caller's dataset).
+
 Findings on the unchanged tree (see C15_findings.md; each has its own input_class so that it can be listed as known):
   'correlation+nan'           correlation kernel divides by the total channel count when channels are NaN
   'mahalanobis-noise+nan'     mahalanobis kernel with a noise matrix and NaN channels reads past its buffers (garbage) and
@@ -320,14 +341,14 @@ def _make_(case):
                 X = X - 1.6                                        # mixed signs (centring errors become visible)
             if case.get('values') == 'f32':                        # sweep: non-integer values representable in float32
                 X = X.astype(np.float32).astype(np.float64)
-        if case.get('scale'):                                      # sweep: the same design in other (legitimate) units
-            X = X * float(case['scale'])
         if nan != 'none':
             X[_nan_mask(rs, nan, m, P, cond, thin=attempt // 15)] = np.nan
         if _KIND[method] != 'corr' or _corr_defined(X):
             break
     else:
         raise RuntimeError('no admissible data found for the correlation case')
+    if case.get('scale'):                                          # sweep: the same design in other (legitimate) units
+        X = X * float(case['scale'])
     folds = case.get('folds')
     return dict(labels=labels, uniq=uniq, cond=cond, n=n, m=m, P=P, X=X, folds=folds, noise=_noise(case, P),
                 pl=case.get('pl', 1.0), pw=case.get('pw', 0.1))
@@ -1009,6 +1030,39 @@ FOLD_LABEL_SETS = {
 }
 
 
+# sweep: fold label sets in further containers / dtypes / units (values, form); 'bool' only for designs with 2 folds
+FOLD_LABEL_SETS_TYPED = {
+    'int8': ([-128, 127, 0, 5], 'int8'),
+    'uint8': ([255, 0, 128, 7], 'uint8'),
+    'uint64-huge': ([2 ** 63 + 1, 2 ** 63, 3, 2 ** 64 - 1], 'uint64'),
+    'float32': ([0.25, 0.75, 1.25, 1.5], 'float32'),
+    'float-tiny': ([1e-20, 2e-20, -1e-20, 0.0], None),
+    'float-huge': ([1e300, -1e300, 1e299, 0.0], None),
+    'list-int': ([7, -3, 100, 5], 'list'),
+    'list-float-same-trunc': ([-0.9, -0.2, 0.4, 0.8], 'list'),
+    'tuple-str': (['runB', 'runA', 'runD', 'runC'], 'tuple'),
+    'list-numeric-str': (['10', '9', '2.5', '2'], 'list'),
+    'object-str': (['runB', 'runA', 'runD', 'runC'], 'object'),
+    'bool': ([True, False], 'bool'),
+}
+
+# sweep: condition label sets (first appearance b, c, a = a 3-cycle of the sorted order) and the forms they are given in
+COND_LABEL_SETS = {
+    'str': (['b', 'c', 'a', 'a0'], ('list', 'tuple', 'object', 'array')),
+    'numeric-str': (['10', '9', '2.5', '2'], ('list', 'object')),
+    'int': ([20, 100, 3, 11], ('list', 'tuple', 'int8', 'uint8', 'float32', 'object')),
+    'float': ([0.5, 8.0, -1.5, 0.25], ('list', 'tuple', 'float32', 'array')),
+    'float-tiny': ([1e-20, 2e-20, -1e-20, 0.0], ('list', 'array')),
+    'float-close': ([0.3, 0.30000000000000004, 0.29999999999999993, 1.0], ('list', 'array')),
+    'bool': ([True, False], ('list', 'bool')),
+}
+
+
+def _two_fold_design(seq, F=3):
+    """k-th observation of condition c -> fold (k + c) mod F: a condition observed twice or more lies in >= 2 folds"""
+    return [(o + c) % F for o, c in zip(_occurrence(seq), seq)]
+
+
 def _settings(thorough):
     """(method, noise) combinations"""
     out = []
@@ -1040,7 +1094,11 @@ def tier_c(run, thorough):
     bd = Bounded(run, 'C15/first-appearance', 'C15/calc_rdm_unbalanced/oracle/first-appearance-labels',
                  'ALL label sequences of length 2..%d over 2..4 conditions x ALL assignments of sorted names to first-appearance '
                  'slots (every permutation) x int and string names; euclidean (+ one rotating other setting per sequence), '
-                 '3 channels; descriptor=None for lengths 2..%d' % (Lmax, Lmax),
+                 '3 channels; descriptor=None for lengths 2..%d; plus (sweep, not exhaustive) 6 fixed sequences x 7 label sets (str, '
+                 'numeric str, int, float, floats 1e-20 / 1 ulp apart, bool) given as list / tuple / object / int8 / uint8 / float32 / '
+                 'bool arrays x 8 rotating settings (fold descriptor as list / tuple / int8 / float32 / object), and x 4 sets of '
+                 'further descriptors (2-D, str list, varying within a condition) x condition descriptor first / last in the dict'
+                 % (Lmax, Lmax),
                  exhaustive=True, function='calc_rdm_unbalanced')
     rot = [('correlation', 'number', None), ('mahalanobis', 'number', 'spd'), ('poisson', 'number', None),
            ('crossnobis', 'equal', 'spd'), ('poisson_cv', 'number', None), ('euclidean', 'equal', None)]
@@ -1068,6 +1126,53 @@ def tier_c(run, thorough):
         bd.check(orc_pairs, case, 'descriptor-none', function='calc_rdm_unbalanced')
         case = dict(seed=L, labels=[0] * L, P=3, method='poisson', weighting='number', descriptor_none=True)
         bd.check(orc_pairs, case, 'descriptor-none', function='calc_rdm_unbalanced')
+    # sweep: the condition / fold descriptors as list, tuple, object array, small-int / float32 / bool arrays, float labels
+    # (tiny, 1 ulp apart), further descriptors (2-D, str list, varying within a condition), condition descriptor last in the dict
+    sweep_seqs = [[0, 1, 2, 0, 1, 2, 0], [0, 1, 0, 2, 2, 3, 1, 3, 0], [0, 0, 1, 2, 1, 0], [0, 1, 2, 3]]
+    two_seqs = [[0, 1, 1, 0, 1], [0, 0, 1]]
+    rot2 = [('euclidean', 'number', None, False), ('correlation', 'number', None, False), ('mahalanobis', 'number', 'spd', False),
+            ('crossnobis', 'equal', 'spd', True), ('poisson', 'number', None, False), ('poisson_cv', 'number', None, True),
+            ('euclidean', 'equal', None, True), ('correlation', 'equal', None, True)]
+    fold_forms = [None, 'list', 'tuple', 'int8', 'float32', 'object']
+    k = 0
+    for setname, (names, forms) in COND_LABEL_SETS.items():
+        for form in forms:
+            for seq in (two_seqs if setname == 'bool' else sweep_seqs):
+                for rep_ in range(2):
+                    method, weighting, noise, with_folds = rot2[k % len(rot2)]
+                    k += 1
+                    case = dict(seed=k % 11, labels=[names[c] for c in seq], P=3, method=method, weighting=weighting,
+                                cond_form=form)
+                    if noise:
+                        case['noise'] = noise
+                    if with_folds:
+                        case['folds'] = _two_fold_design(seq)
+                        case['fold_form'] = fold_forms[(k // 2) % len(fold_forms)]
+                    if rep_:
+                        case['descriptor_none'] = True
+                    cls = 'labels-%s-as-%s' % (setname, form)
+                    if klass(case, cls) == cls:
+                        bd.check(orc_pairs, case, cls, function='calc_rdm_unbalanced')
+    extra_sets = [['vec2d'], ['str-list', 'vary'], ['vec2d-float', 'vary2d'], ['vary2d', 'vec2d', 'str-list']]
+    for seq in sweep_seqs + two_seqs:
+        for ex in extra_sets:
+            for order in (None, 'reversed'):
+                for dnone in (False, True):
+                    method, weighting, noise, with_folds = rot2[k % len(rot2)]
+                    k += 1
+                    case = dict(seed=k % 11, labels=[STR_NAMES[(c + 2) % 4] for c in seq], P=3, method=method,
+                                weighting=weighting, extras=ex)
+                    if order:
+                        case['desc_order'] = order
+                    if noise:
+                        case['noise'] = noise
+                    if with_folds:
+                        case['folds'] = _two_fold_design(seq)
+                    if dnone:
+                        case['descriptor_none'] = True
+                    cls = 'extra-descriptors' + ('-cond-last' if order else '')
+                    if klass(case, cls) == cls:
+                        bd.check(orc_pairs, case, cls, function='_build_rdms')
     bd.done()
     bds.append(bd)
 
@@ -1101,7 +1206,13 @@ def tier_c(run, thorough):
     bd = Bounded(run, 'C15/pair-loop-random', 'C15/calc_rdm_unbalanced/oracle/pair-loop-random',
                  'seeded designs: 3..7 conditions, 4..16 observations in random order (half of them with every condition repeated), 2..6 channels, random fold assignment '
                  '(2..4 folds, int/float/string labels) or none, 6 methods x noise x 2 weightings x 5 NaN patterns, prior '
-                 'lambda/weight varied; %d seeds per combination (noise matrix together with NaN channels: every third seed)' % n_seed, function='calc_rdm_unbalanced')
+                 'lambda/weight varied; %d seeds per combination (noise matrix together with NaN channels: every third seed); plus (sweep) one '
+                 '4-condition / 11-observation design with the data scaled by %s (poisson: 1e-3, 1e+6), precision fixed or scaled by '
+                 '1/scale^2, and designs of (conditions, observations, channels) = %s, each x methods x noise x weighting / folds x NaN '
+                 'none / per-observation (quick: two rotating combinations per setting for the larger designs), outside the classes of the known findings'
+                 % (n_seed, '1e-12, 1e-20, 1e-26, 1e+6, 1e+12' if thorough else '1e-12, 1e-26, 1e+6, 1e+12',
+                    '(10,26,17) (17,40,3) (30,70,64) (25,25,4) (4,9,1) (3,7,200) (2,2,1)'
+                    + (' (40,100,5) (64,130,2) (12,60,33)' if thorough else '')), function='calc_rdm_unbalanced')
     for seed in range(n_seed):
         rs = np.random.RandomState(1000 + seed)
         for method, noise in _settings(True):
@@ -1135,6 +1246,60 @@ def tier_c(run, thorough):
                         continue                # noise matrix + NaN channels (separate interpreter): every third seed only
                     bd.check(orc_pairs, case, klass(case, 'nan-' + nan if nan != 'none' else 'generic'),
                              function='calc_rdm_unbalanced')
+    # sweep: one unbalanced design in extreme but legitimate units (compared RELATIVE to the largest expected entry); the
+    # precision either fixed or in the matching units (1 / scale^2); poisson: counts x 1e+6, rates x 1e-3 with the prior in the
+    # same units.  Only settings outside the classes of the known findings (a condition always lies in >= 2 folds).
+    useq = [2, 0, 1, 0, 2, 1, 1, 0, 2, 3, 3]
+    unames = ['b', 'c', 'a', 'a0']
+    scales = (1e-12, 1e-20, 1e-26, 1e+6, 1e+12) if thorough else (1e-12, 1e-26, 1e+6, 1e+12)
+    for method, noise in _settings(False):
+        pois = _KIND[method] == 'poisson'
+        for sc in ((1e-3, 1e+6) if pois else scales):
+            for weighting, with_folds in (('number', False), ('number', True), ('equal', True)):
+                for nan in ('none', 'obs'):
+                    for ns in ((None, 'inverse') if noise else (None,)):
+                        case = dict(seed=3, labels=[unames[c] for c in useq], P=5, method=method, weighting=weighting, nan=nan,
+                                    scale=sc)
+                        if pois and sc < 1:
+                            case.update(pl=sc, pw=0.1)
+                        if noise:
+                            case['noise'] = noise
+                        if ns:
+                            case['noise_scale'] = ns
+                        if with_folds:
+                            case['folds'] = _two_fold_design(useq)
+                        cls = 'units-%g' % sc
+                        if not _dangerous(case) and klass(case, cls) == cls:
+                            bd.check(orc_pairs, case, cls, function='calc_rdm_unbalanced')
+    # sweep: sizes beyond the seeded designs (more conditions / observations / channels, a single channel, one observation
+    # per condition for many conditions)
+    sizes = [(10, 26, 17), (17, 40, 3), (30, 70, 64), (25, 25, 4), (4, 9, 1), (3, 7, 200), (2, 2, 1)]
+    if thorough:
+        sizes += [(40, 100, 5), (64, 130, 2), (12, 60, 33)]
+    kq = 0
+    for n, m, P in sizes:
+        rs = np.random.RandomState(8000 + n + m + P)
+        seq = list(range(n)) * (2 if m >= 2 * n else 1)
+        seq = seq + [int(v) for v in rs.randint(0, n, size=m - len(seq))]
+        seq = [int(seq[i]) for i in rs.permutation(m)]
+        names = [int(v) for v in rs.permutation(1000)[:n]]
+        for method, noise in _settings(False):
+            if P == 1 and method == 'correlation':
+                continue
+            combos = [(w, f, nan) for (w, f) in (('number', False), ('number', True), ('equal', True))
+                      for nan in (('none', 'obs') if P >= 4 else ('none',))]
+            if not thorough and m * P > 150:         # quick: the larger designs with two rotating combinations per setting
+                kq += 1
+                combos = [combos[kq % len(combos)], combos[(kq + 3) % len(combos)]]
+            for weighting, with_folds, nan in combos:
+                case = dict(seed=n, labels=[names[c] for c in seq], P=P, method=method, weighting=weighting, nan=nan)
+                if noise:
+                    case['noise'] = noise
+                if with_folds:
+                    case['folds'] = _two_fold_design(seq, 4)
+                cls = 'size-n%d-m%d-P%d' % (n, m, P)
+                if not _dangerous(case) and klass(case, cls) == cls:
+                    bd.check(orc_pairs, case, cls, function='similarity.calc')
     bd.done()
     bds.append(bd)
 
@@ -1145,7 +1310,9 @@ def tier_c(run, thorough):
                  'descriptor=None); euclidean/mahalanobis with ALL condition-index sequences of length <= %d and random '
                  'repetition counts (<= 14 observations); crossnobis (noise None/SPD/identity) with 2..4 folds and 1..3 '
                  'observations per condition and fold, poisson_cv with one; int/float/string fold labels; both weightings; '
-                 'float and int data, C/F order; %d seeds' % (Lmax, n_seed), function='calc_rdm_unbalanced')
+                 'float and int data, C/F order; %d seeds; plus (sweep) fixed designs of the three kinds with the data scaled by 1e-12, '
+                 '1e-26, 1e+6, 1e+12 (precision in matching units), labels / folds as list / tuple, and float32 / uint8 / int16 / uint16 '
+                 'data x C / F / strided' % (Lmax, n_seed), function='calc_rdm_unbalanced')
     for seed in range(n_seed):
         rs = np.random.RandomState(2000 + seed)
         for weighting in ('number', 'equal'):
@@ -1206,6 +1373,42 @@ def tier_c(run, thorough):
                 if noise:
                     case['noise'] = noise
                 bd.check(orc_agree, case, 'repeats', function='calc_rdm_unbalanced')
+    # sweep: the agreement in extreme units (relative comparison) and with list / tuple descriptors, float32 / uint8 data
+    aseq = [1, 0, 2, 0, 1, 1, 2, 0, 3]
+    rs = np.random.RandomState(2999)
+    for sc in (1e-12, 1e-26, 1e+6, 1e+12):
+        for form in ('list', 'tuple'):
+            single = [STR_NAMES[i] for i in (2, 0, 3, 1)]
+            for method, noise in (('euclidean', None), ('correlation', None), ('mahalanobis', 'spd')):
+                case = dict(seed=5, labels=single, P=4, method=method, weighting='number', kind='single', scale=sc, cond_form=form)
+                if noise:
+                    case.update(noise=noise, noise_scale='inverse')
+                bd.check(orc_agree, case, 'units-%g' % sc, function='calc_rdm_unbalanced')
+            for method, noise in (('euclidean', None), ('mahalanobis', 'spd')):
+                case = dict(seed=6, labels=[STR_NAMES[c] for c in aseq], P=4, method=method, weighting='number', kind='repeats',
+                            scale=sc, cond_form=form)
+                if noise:
+                    case.update(noise=noise, noise_scale='inverse')
+                bd.check(orc_agree, case, 'units-%g' % sc, function='calc_rdm_unbalanced')
+            for method, noise in (('crossnobis', None), ('crossnobis', 'spd')):
+                cond, fold = _cv_design(rs, 3, 3, [1, 2, 1])
+                case = dict(seed=7, labels=[STR_NAMES[c] for c in cond], folds=[FOLD_LABEL_SETS['string'][f] for f in fold], P=4,
+                            method=method, weighting='equal', kind='cv', scale=sc, cond_form=form, fold_form=form)
+                if noise:
+                    case['noise'] = noise
+                bd.check(orc_agree, case, 'units-%g' % sc, function='calc_rdm_unbalanced')
+    for dtype, values in (('float32', 'f32'), ('uint8', 'int'), ('int16', 'int-large'), ('uint16', 'int-large')):
+        for order in ('C', 'F', 'strided'):
+            for method, noise in (('euclidean', None), ('mahalanobis', 'spd'), ('poisson', None), ('correlation', None)):
+                rep_ok = method in ('euclidean', 'mahalanobis')
+                labels = [INT_NAMES[c] for c in aseq] if rep_ok else [INT_NAMES[i] for i in (2, 0, 3, 1)]
+                if method == 'poisson' and values == 'f32':
+                    continue
+                case = dict(seed=8, labels=labels, P=4, method=method, weighting='number', kind='repeats' if rep_ok else 'single',
+                            values=values, dtype=dtype, order=order)
+                if noise:
+                    case['noise'] = noise
+                bd.check(orc_agree, case, 'data-%s-%s' % (dtype, order), function='ensure_double')
     bd.done()
     bds.append(bd)
 
@@ -1214,8 +1417,10 @@ def tier_c(run, thorough):
     bd = Bounded(run, 'C15/fold-relabel', 'C15/calc_rdm_unbalanced/oracle/fold-exclusion',
                  'seeded designs (3..5 conditions, 6..14 observations, 2..4 folds, random = unbalanced fold assignment and '
                  'fold-balanced) x 6 methods x 2 weightings, each under 8 fold label sets (int, negative/unsorted int, huge int, '
-                 'non-integer float, floats truncating to one integer, floats 1e-9 apart, strings, numeric strings); %d seeds'
-                 % n_seed, function='calc_rdm_unbalanced')
+                 'non-integer float, floats truncating to one integer, floats 1e-9 apart, strings, numeric strings); %d seeds; plus '
+                 '(sweep) fold-balanced designs with 2 / 4 folds x 6 methods under %d further label sets (int8, uint8, uint64 > 2^63, '
+                 'float32, floats 1e-20 apart, floats 1e300, bool, and list / tuple / object-array containers); %d seeds'
+                 % (n_seed, len(FOLD_LABEL_SETS_TYPED), 6 if thorough else 2), function='calc_rdm_unbalanced')
     for seed in range(n_seed):
         rs = np.random.RandomState(3000 + seed)
         for method in METHODS:
@@ -1234,6 +1439,21 @@ def tier_c(run, thorough):
                         case['noise'] = 'spd'
                     bd.check(orc_folds, case, klass(case, 'folds-balanced' if balanced else 'folds-unbalanced'),
                              function='calc_rdm_unbalanced')
+    # sweep: fold labels in further containers / dtypes / units (2 folds: additionally bool)
+    for seed in range(6 if thorough else 2):
+        rs = np.random.RandomState(3500 + seed)
+        for method in METHODS:
+            for F in (2, 4):
+                n = int(rs.randint(3, 6))
+                cond, fold = _cv_design(rs, n, F, [int(r) for r in rs.randint(1, 3, size=n)])
+                sets = {k: v for k, v in FOLD_LABEL_SETS_TYPED.items() if F <= len(v[0])}
+                case = dict(seed=seed, labels=cond, fold_codes=fold, folds=fold, P=4, method=method,
+                            weighting='equal' if (seed + F) % 4 == 0 else 'number',
+                            label_sets={k: v[0] for k, v in sets.items()},
+                            label_forms={k: v[1] for k, v in sets.items() if v[1]})
+                if method == 'crossnobis' and F == 4:
+                    case['noise'] = 'spd'
+                bd.check(orc_folds, case, klass(case, 'folds-typed'), function='calc_rdm_unbalanced')
     bd.done()
     bds.append(bd)
 
@@ -1295,7 +1515,10 @@ def tier_c(run, thorough):
     bd = Bounded(run, 'C15/dtype-layout', 'C15/calc_rdm_unbalanced/oracle/dtype-and-layout',
                  'seeded integer-valued designs (2..5 conditions, 3..10 observations, 3..5 channels) given as float64/float32/'
                  'int64/int32/int16/uint8 x C/F/strided; float designs with NaN as float64 C/F/strided; 6 methods x noise x '
-                 'weighting number (+ equal with folds); %d seeds' % n_seed, function='ensure_double')
+                 'weighting number (+ equal with folds); %d seeds; plus (sweep) non-integer float32-representable designs as float32 '
+                 'C/F/strided, integer designs with values < 30000 as int64/int32/int16/uint16/float32 and < 65536 as uint16/uint32/int32/'
+                 'float32, precision as strided view; '
+                 '%d seeds' % (n_seed, 6 if thorough else 2), function='ensure_double')
     int_variants = [['float64', 'C'], ['float64', 'F'], ['float64', 'strided'], ['float32', 'C'], ['float32', 'F'],
                     ['int64', 'C'], ['int64', 'F'], ['int32', 'strided'], ['int16', 'C'], ['uint8', 'F']]
     nan_variants = [['float64', 'C'], ['float64', 'F'], ['float64', 'strided']]
@@ -1321,6 +1544,39 @@ def tier_c(run, thorough):
                         continue                    # covered (in isolation) by the pair-loop and NaN domains
                     bd.check(orc_layout, case, klass(case, 'int-valued' if mode == 'int' else 'float-nan'),
                              function='ensure_double')
+    # sweep: non-integer float32 data, integers needing 15 bits as int16 / uint16 / int32 / int64 / float32, strided precision
+    f32_variants = [['float64', 'C'], ['float32', 'C'], ['float32', 'F'], ['float32', 'strided'], ['float64', 'strided']]
+    big_variants = [['float64', 'C'], ['int64', 'F'], ['int32', 'strided'], ['int16', 'C'], ['uint16', 'F'], ['float32', 'C'],
+                    ['uint16', 'strided']]
+    u16_variants = [['float64', 'C'], ['uint16', 'C'], ['uint16', 'F'], ['uint16', 'strided'], ['int32', 'C'], ['uint32', 'F'],
+                    ['float32', 'C']]
+    for seed in range(6 if thorough else 2):
+        rs = np.random.RandomState(6500 + seed)
+        for method, noise in _settings(False):
+            for mode in ('f32', 'int-large', 'u16'):
+                for weighting, with_folds in (('number', False), ('equal', True)):
+                    n = int(rs.randint(2, 5))
+                    seq = list(range(n)) * 2 + [int(v) for v in rs.randint(0, n, size=int(rs.randint(0, 4)))]
+                    seq = [seq[int(i)] for i in rs.permutation(len(seq))]
+                    case = dict(seed=seed, labels=seq, P=int(rs.randint(3, 6)), method=method, weighting=weighting, values=mode,
+                                variants=f32_variants if mode == 'f32' else big_variants)
+                    if mode == 'u16':               # the upper half of the unsigned range
+                        case.update(values='int-large', vmax=65536, variants=u16_variants)
+                    if noise:
+                        case.update(noise=noise, noise_layout='strided')
+                    if with_folds:
+                        case['folds'] = _two_fold_design(seq)
+                    cls = {'f32': 'float32-non-integer', 'int-large': 'int-15-bit', 'u16': 'uint16-full-range'}[mode]
+                    if klass(case, cls) == cls:
+                        bd.check(orc_layout, case, cls, function='ensure_double')
+    if False:  # pending triage: noise-dtype-float32 / noise-dtype-int64 (an integer-valued precision matrix given as float32 or
+        #        int64 array: calc_rdm accepts it, calc_rdm_unbalanced raises ValueError 'Buffer dtype mismatch')
+        for ndt in ('float32', 'int64'):
+            for method in NOISE_METHODS:
+                case = dict(seed=1, labels=[0, 1, 2, 0, 1, 2, 0], folds=[0, 0, 0, 1, 1, 1, 2], P=4, method=method,
+                            weighting='number', noise='intspd', noise_dtype=ndt, variants=[['float64', 'C'], ['int64', 'C']],
+                            values='int')
+                bd.check(orc_layout, case, 'noise-dtype-' + ndt, function='calc_rdm_unbalanced')
     bd.done()
     bds.append(bd)
 
@@ -1360,7 +1616,8 @@ def tier_c(run, thorough):
     # ---- 9. list of datasets ----------------------------------------------------------------------------------------
     bd = Bounded(run, 'C15/list', 'C15/calc_rdm_unbalanced/oracle/list-forwards-options',
                  'lists of 2..3 datasets with the same label sequence; 6 methods x 2 weightings, folds present, non-default '
-                 'prior, noise None / one matrix / one per dataset', function='calc_rdm_unbalanced')
+                 'prior, noise None / one matrix / one per dataset; (sweep) datasets as list / tuple, precisions as list / tuple / '
+                 '3-D array', function='calc_rdm_unbalanced')
     seq = [2, 0, 1, 0, 2, 1, 1, 0]
     folds = [0, 0, 0, 1, 1, 1, 2, 2]
     for method in METHODS:
@@ -1372,6 +1629,107 @@ def tier_c(run, thorough):
                     if nmode != 'none':
                         case['noise'] = 'spd'
                     bd.check(orc_list, case, 'list,noise-' + nmode, function='calc_rdm_unbalanced')
+                    # sweep: the datasets as tuple, the precisions as tuple / 3-D array
+                    for dc, nc in ((('tuple', None),) if nmode != 'each' else (('tuple', 'tuple'), (None, 'array3d'))):
+                        if n_ds == 3 or nmode == 'each':
+                            c2 = dict(case, ds_container=dc, noise_container=nc)
+                            bd.check(orc_list, c2, 'list-as-%s,noise-as-%s' % (dc or 'list', nc or ('list' if nmode == 'each' else nmode)),
+                                     function='calc_rdm_unbalanced')
+    bd.done()
+    bds.append(bd)
+
+    # ---- 10. sweep: call sequences ---------------------------------------------------------------------------------------
+    n_seed = 5 if thorough else 1
+    bd = Bounded(run, 'C15/call-sequence', 'C15/calc_rdm_unbalanced/oracle/call-sequence',
+                 'call(A), call(B: same shape and options, other measurements [and other label order]), call(A), calc_one_similarity '
+                 'twice, list call [A, B]: every result = definition, repeated calls identical, held results and all inputs '
+                 '(measurements, descriptors and their container types, precision) unchanged, no descriptor added to the '
+                 "caller's dataset; 9 settings x 3 weighting / fold combinations x same / other label order, data as float64-C / "
+                 'int64 / float32-F, descriptors as arrays / lists / tuples, with further descriptors, NaN none / per-observation; '
+                 '%d seeds; outside the classes of the known findings' % n_seed, function='calc_rdm_unbalanced')
+    cseq = [1, 0, 2, 0, 1, 1, 2, 0, 2]
+    cseq_b = [0, 2, 2, 1, 0, 1, 2, 0, 1]
+    forms = [dict(), dict(cond_form='list', fold_form='list'), dict(cond_form='tuple', extras=['vec2d', 'vary']),
+             dict(extras=['str-list'], desc_order='reversed')]
+    typed = [dict(), dict(values='int', dtype='int64'), dict(values='f32', dtype='float32', order='F')]
+    k = 0
+    pending_calls = []
+    for seed in range(n_seed):
+        for method, noise in _settings(False):
+            for weighting, with_folds in (('number', False), ('number', True), ('equal', True)):
+                for other_order in (False, True):
+                    k += 1
+                    case = dict(seed=seed, labels=[STR_NAMES[c] for c in cseq], P=4, method=method, weighting=weighting,
+                                strict_keys=True)
+                    case.update(forms[k % len(forms)])
+                    case.update(typed[(k // 2) % len(typed)])
+                    if 'values' not in case and k % 3 == 0 and method != 'correlation':
+                        case['nan'] = 'obs'
+                    if other_order:
+                        case['labels_b'] = [STR_NAMES[c] for c in cseq_b]
+                    if noise:
+                        case['noise'] = noise
+                    if with_folds:
+                        case['folds'] = _two_fold_design(cseq)
+                    elif method in CV_METHODS:
+                        # the fall-back to the row index ADDS an 'index' descriptor to the caller's dataset
+                        pending_calls.append(dict(case))
+                        case['strict_keys'] = False
+                    if _dangerous(case) or klass(case, 'x') != 'x':
+                        continue
+                    bd.check(orc_calls, case, 'calls-other-label-order' if other_order else 'calls-same-labels',
+                             function='calc_rdm_unbalanced')
+    if False:  # pending triage: cv-fallback-adds-index-descriptor
+        for case in pending_calls:
+            bd.check(orc_calls, case, 'cv-fallback-adds-index-descriptor', function='calc_rdm_unbalanced')
+    bd.done()
+    bds.append(bd)
+
+    # ---- 11. sweep: environment (hash seed) ------------------------------------------------------------------------------
+    batch = []
+    hseq = [1, 0, 2, 0, 1, 1, 2, 0, 3, 3]
+    hlab = [STR_NAMES[c] for c in hseq]
+    hfold = [FOLD_LABEL_SETS['string'][f] for f in _two_fold_design(hseq)]
+    for i, (method, noise) in enumerate(_settings(False)):
+        for j, (weighting, with_folds) in enumerate((('number', False), ('equal', True))):
+            case = dict(seed=i, labels=hlab, P=4, method=method, weighting=weighting)
+            case.update([dict(), dict(cond_form='list', fold_form='list'), dict(cond_form='object', extras=['str-list', 'vec2d']),
+                         dict(cond_form='tuple', desc_order='reversed', extras=['vary'])][(i + j) % 4])
+            if noise:
+                case['noise'] = noise
+            if with_folds:
+                case['folds'] = hfold
+            if klass(case, 'x') != 'x':
+                continue
+            batch.append(['C15/pair-loop', case])
+            batch.append(['C15/calc-one', {k_: v for k_, v in case.items() if k_ not in ('cond_form', 'fold_form', 'extras',
+                                                                                             'desc_order')}])
+            if with_folds or method not in CV_METHODS:
+                batch.append(['C15/call-sequence', dict(case, strict_keys=True)])
+    for method, noise in (('euclidean', None), ('mahalanobis', 'spd')):
+        case = dict(seed=2, labels=hlab, P=4, method=method, weighting='number', kind='repeats', cond_form='list')
+        if noise:
+            case['noise'] = noise
+        batch.append(['C15/agree-calc_rdm', case])
+    rs = np.random.RandomState(9000)
+    for method in CV_METHODS:
+        cond, fold = _cv_design(rs, 4, 3, [1] * 4)
+        batch.append(['C15/agree-calc_rdm', dict(seed=3, labels=[STR_NAMES[c] for c in cond], P=4, method=method, weighting='number',
+                                                 folds=[FOLD_LABEL_SETS['string'][f] for f in fold], kind='cv')])
+        batch.append(['C15/fold-relabel', dict(seed=4, labels=cond, fold_codes=fold, folds=fold, P=4, method=method,
+                                               weighting='number', label_sets=FOLD_LABEL_SETS)])
+    batch.append(['C15/list', dict(seed=2, labels=[STR_NAMES[c] for c in [2, 0, 1, 0, 2, 1, 1, 0]],
+                                   folds=[FOLD_LABEL_SETS['string'][f] for f in [0, 0, 0, 1, 1, 1, 2, 2]], P=4, method='crossnobis',
+                                   weighting='number', n_ds=3, pl=2.0, pw=0.5, noise_mode='each', noise='spd')])
+    hashseeds = (1, 2, 3, 31337, 4294967295) if thorough else (1, 31337)
+    bd = Bounded(run, 'C15/hashseed', 'C15/calc_rdm_unbalanced/oracle/independent-of-hash-seed',
+                 'new interpreters with PYTHONHASHSEED in %s (this process: %s), each running %d cases of the oracles pair-loop / '
+                 'calc-one / call-sequence / agree-calc_rdm / fold-relabel / list with string condition and fold labels (arrays, '
+                 'lists, tuples, object arrays), outside the classes of the known findings'
+                 % (list(hashseeds), __import__('os').environ.get('PYTHONHASHSEED', 'unset'), len(batch)),
+                 function='calc_rdm_unbalanced')
+    for hs in hashseeds:
+        bd.check(orc_hashseed, dict(hashseed=hs, batch=batch), 'PYTHONHASHSEED=%d' % hs, function='calc_rdm_unbalanced')
     bd.done()
     bds.append(bd)
     _stop_worker()
